@@ -510,8 +510,8 @@ def judge_distances(rows, dist, exp):
 def classify_distance(case, fam, exp, rows, shuffler, prob):
     import numpy as np
     gm = fam.gm
-    if zero_pair_mechanism(exp, shuffler, rows):
-        return "pairs-any-zero-pair"
+    if zero_pair_mechanism(exp, shuffler, rows) and prob.get("shape") == [2, 1]:
+        return "pairs-any-zero-pair"      # the (2, 1) pair array returned as distances
     got, want = prob.get("_got"), prob.get("_want")
     if got is None:
         return "distance-column"
